@@ -107,7 +107,7 @@ func checkC14(seed uint64, replayDir, corpusDir string) (map[string]any, int) {
 	t := newRelTotals("C14")
 	n := 2500 * tierScale()
 	base := newRng(seed ^ hashStr("C14"))
-	forms := []string{"plain", "pre", "json", "builder"}
+	forms := []string{"plain", "pre", "json", "builder", "repre"}
 	const batch = 500
 	for start := 0; start < n; start += batch {
 		groups := [][]*EvalCase{}
@@ -126,8 +126,8 @@ func checkC14(seed uint64, replayDir, corpusDir string) (map[string]any, int) {
 			// in the two hand-built forms, which need not be expressible in JSON or by the builders,
 			// and with the forms mixed between the items of the case
 			raw := cloneCase(c)
-			rawG := []*EvalCase{setForms(raw, "plain"), setForms(raw, "pre"),
-				setMixedForms(raw, r, []string{"plain", "pre"}, "mixed-1"), setMixedForms(raw, r, []string{"plain", "pre"}, "mixed-2")}
+			rawG := []*EvalCase{setForms(raw, "plain"), setForms(raw, "pre"), setForms(raw, "repre"),
+				setMixedForms(raw, r, []string{"plain", "pre", "repre"}, "mixed-1"), setMixedForms(raw, r, []string{"plain", "pre", "repre"}, "mixed-2")}
 			sanitizeCase(c)
 			g := []*EvalCase{}
 			for _, f := range forms {
@@ -634,7 +634,7 @@ func checkC12(seed uint64, replayDir, corpusDir string) (map[string]any, int) {
 	for h := 0; h < histories; h++ {
 		r := base.fork()
 		// one evaluator for the whole history; option set fixed at construction
-		opts := WOpts{Sec: r.bool(), Log: r.bool(), Rec: true}
+		opts := WOpts{Sec: r.bool(), Log: r.bool(), Rec: true, shape: r.next()}
 		prov := &WBS{Dflt: WBSAnswer{St: "HEALTHY"}}
 		useBS := r.chance(4, 5)
 		ms := &mutableStore{cur: &realStore{flags: map[string]*ldmodel.FeatureFlag{}, segments: map[string]*ldmodel.Segment{}}}
